@@ -42,7 +42,8 @@ MANIFEST = {
             'no result variable shares memory with an input; writing into '
             'every result variable leaves the inputs unchanged. The close/GC '
             'clause over disk-backed files is NOT claimed (netCDF-C handle '
-            'recycling and GC schedules cannot be encoded).',
+            'recycling and GC schedules cannot be encoded).'
+            ' Also: IOAPI windows leave the source\'s origin/levels/dimensions unchanged (array-valued attributes included); getTimes leaves TFLAG and CF time coordinates unchanged.',
     'note': 'Trusted: z3, numpy memory model (real numpy). Clause on '
             'close()/__del__ interleavings of disk-backed files is outside '
             'this technique (FFI + GC nondeterminism) and is not claimed.',
